@@ -15,9 +15,10 @@ def shapes(p, rng, quick):
     import a5
     S = []
     places = [((12.3, 45.6), 9), ((-57.0, 20.0), 2), ((179.99, -16.5), 20), ((10.0, 89.9999), 29), ((-120.0, -89.99), 5), ((-93.0, 31.7), 1)]
+    places.append(((30.0, 10.0), 0))
     if quick:
-        places = [places[0], places[1], places[3]]
-    opts = [None, {"segments": 3}, {"closed_ring": False}, {"segments": 2}, {"segments": 2}, {"segments": "auto"}]
+        places = [places[0], places[1], places[3], places[6]]
+    opts = [None, {"segments": 3}, {"closed_ring": False}, {"segments": 2}, {"segments": 2}, {"segments": "auto"}, {"segments": 1}]
     for n, ((lon, lat), r) in enumerate(places):
         c = a5.lonlat_to_cell((lon, lat), r)
         S.append(["lonlat_to_cell", hx(lon), hx(lat), r])
